@@ -594,7 +594,11 @@ func TestVerifC10Helper(t *testing.T) {
 	}
 	c10ApplyChange(cch, cc)
 	if err := cch.Save(); err != nil {
-		os.Exit(5)
+		// the fault hit this save only: the next request saves again
+		if err := cch.Save(); err != nil {
+			os.Exit(5)
+		}
+		os.Exit(6) // the last save succeeded: the directory must hold the new snapshot
 	}
 	os.Exit(0)
 }
@@ -675,6 +679,10 @@ func c10Crash(cc *c10CrashCase, selfExe string) (v *vfkit.Violation, interesting
 	}
 	got := c10Describe(re, &descCase)
 	d0, d1 := c10Diff(s0, got), c10Diff(s1, got)
+	if (exit == 6 || exit == 0) && len(d1) > 0 {
+		return c10v("the reloaded cache equals the cache at its last successful save", "last-successful-save-not-on-disk:"+f.Syscall+":"+f.Action,
+			"fault %+v: the helper's last Save() returned nil (exit %d), but the reloaded cache differs from what it saved: %v", f, exit, d1), true
+	}
 	if len(d0) > 0 && len(d1) > 0 {
 		return c10v("after an interrupted or failed save the file is the previous or the new snapshot", "neither-old-nor-new-snapshot:"+f.Syscall+":"+f.Action,
 			"fault %+v (helper exit %d): vs previous %v; vs new %v", f, exit, d0, d1), true
